@@ -21,12 +21,22 @@ var protectedPointers = []string{"/publicKey", "/service", "/publicKey/0", "/ser
 	"/publicKeyX", "/service2", "/publi", "/servic", "/Service", "/PublicKey", "/publicKey~0", "/~1publicKey", "/service~1x", "publicKey", "/alsoKnownAs", "/alsoKnownAs/0",
 	"x/publicKey", "#/publicKey/0", "x/service", " /publicKey", "publicKey/publicKey/0", "~/service/0", "x/publicKey/0/id", "#/service/-", "//publicKey", "/./publicKey"}
 
+var pointerPrefixes = []string{"x", "#", " ", "~", "~1", "~0", "~1x", "~01", "~10", "~1~0x", "%2F", "\\", "..", "~1publicKey", "\u2215", "\uff0f"}
+
 var hostileTokens = []string{"note\n", "\n", "a\tb", "é", "\u2028x", "x\u0000", "x\r\n", " ", "~0", "~1", "%2F", "..", "-", "00", "1e0", "+1", "-1", "\ufeffid"}
 
 func genC11Pointer(t *rapid.T, doc interface{}, label string) string {
-	switch rapid.IntRange(0, 5).Draw(t, label+"-protected") {
+	switch rapid.IntRange(0, 6).Draw(t, label+"-protected") {
 	case 0, 1:
 		return rapid.SampledFrom(protectedPointers).Draw(t, label+"-p")
+	case 3:
+		// text without a '/' in front of a pointer into a protected member: the JSON patch library ignores everything before
+		// the first '/', whatever it spells (escape sequences included) - not a JSON pointer, and if let through it addresses keys
+		prefix := rapid.SampledFrom(pointerPrefixes).Draw(t, label+"-prefix")
+		if rapid.IntRange(0, 3).Draw(t, label+"-randPrefix") == 0 {
+			prefix = strings.ReplaceAll(genString(t, 3), "/", "~1")
+		}
+		return prefix + rapid.SampledFrom(protectedPointers[:12]).Draw(t, label+"-behind")
 	case 2:
 		// a location below a protected member with an unusual last token
 		base := rapid.SampledFrom([]string{"/publicKey", "/service", "/publicKey/0", "/service/0", "/publicKey/0/publicKeyJwk", "/publicKey/1"}).Draw(t, label+"-base")
